@@ -413,6 +413,7 @@ def r5_parts_are_isolated_views(rep, src):
     is updated after it) are part of this property's argument and are decided here as well"""
     from . import C06
     from .C05 import Proxy
+    C06.canonical_member_names(src)          # (the private attributes of the member class by role)
     C06.r1_bounded_reads(Proxy(rep, 'C07.R5'), src)
     C06.r2_position_discipline(Proxy(rep, 'C07.R5'), src)
 
